@@ -415,6 +415,9 @@ func driveC16(seed int64, tier, out, replay string) {
 				q += fmt.Sprintf(" t%d: __type(name: %q) %s", j, names[r.Intn(len(names))], body)
 			}
 			c.Ops = append(c.Ops, c16Op{Query: q + " }", Kind: "type_by_name_vs_types_entry", OpName: "TT"})
+			// one response key selected twice: the selection sets merge (fix 360a3f6; formerly the listed finding
+			// C16-duplicate-response-key); compared with the specification's executor only, the model has no merging
+			c.Ops = append(c.Ops, c16Op{Query: fmt.Sprintf("{ __type(name: %q) { fields { name } fields { isDeprecated } name } __schema { types { name } types { kind } queryType { name } } __schema { queryType { kind } } }", names[r.Intn(len(names))]), Kind: "same_response_key_twice"})
 			cases = append(cases, c)
 		}
 	}
